@@ -36,3 +36,4 @@ TRUSTED = ["matrix layer: 2-D arrays as terms of an uninterpreted sort with the 
            "GreedySelector._continue_greedy_search only resizes the selection buffers (proved under C08)",
            "the X_orthogonalizer unit covers the single-column call forms used by the selectors (c=int, x2=None); the x2= form is not used by any selector and is not covered",
            "reals for floats: 'up to rounding' in the statement is not modelled; the tolerance comparisons are taken exactly"]
+LEAN_LEMMAS = "lemmas/lean/Lemmas.lean"
